@@ -16,7 +16,7 @@ theorem stage_poll {g : Cfg} (ok : g.OK) {c : Conn} (hst : Stage g c) :
   | start hph hwire hraw hlog hb hstop hsc hm hev => exact start_poll ok hph hwire hraw hlog hb hstop hsc hm hev
   | parse hst hsc hm hev => exact (parse_poll ok hst hsc hm hev).mono (by omega)
   | @hread r h hph hr hb hstop hev hsc =>
-    exact (handler_core ok hph (rd_poll ok hr hb (handlerFuel_ge c.env _)) hb hstop hev hsc).mono (by omega)
+    exact (handler_core ok hph (rd_poll ok hr hb hr.fuel) hb hstop hev hsc).mono (by omega)
   | @hwrite r h O1 hph hw hb hstop hev hsc =>
     refine (handler_core ok hph (write_phase hw hb ?_) hb hstop hev hsc).mono (by omega)
     have := handlerFuel_ge c.env r
@@ -136,9 +136,8 @@ theorem prePoll_same (c : Conn) (n : Nat) (h : c.env.segs = []) :
 /-- **The executor.**  Started in a stage with nothing held back by a peer, `runTask` needs at most
 one poll per scripted answer still to come (plus one) and ends `RET` with the connection finished,
 or `STALL` with the connection parked on an empty buffer waiting for the next request. -/
-theorem run_from_stage {g : Cfg} (ok : g.OK) : ∀ (A : Nat) (c : Conn) (n fuel : Nat),
+theorem run_from_stage' {g : Cfg} (ok : g.OK) : ∀ (A : Nat) (c : Conn) (n fuel : Nat),
     Stage g c → c.env.segs = [] → ans c.env.tr ≤ A → A + 1 ≤ fuel →
-    4 * c.env.tr.input.length + 17 ≤ 100000 →
     ∃ c', (c'.env.tr.endMode = c.env.tr.endMode ∧ ans c'.env.tr ≤ ans c.env.tr ∧ c'.env.segs = [] ∧
         ∀ s, s ∈ c.env.tr.events → s ∈ c'.env.tr.events) ∧
       ∃ O1 O2, O1 ++ O2 = g.Ot ∧
@@ -147,12 +146,12 @@ theorem run_from_stage {g : Cfg} (ok : g.OK) : ∀ (A : Nat) (c : Conn) (n fuel 
   intro A
   induction A with
   | zero =>
-    intro c n fuel hst hsegs hA hf hlen
+    intro c n fuel hst hsegs hA hf
     obtain ⟨f, rfl⟩ : ∃ f, fuel = f + 1 := ⟨fuel - 1, by omega⟩
     obtain ⟨hsame, hph, hsc, hstop, hmx, hsg, hwk⟩ := prePoll_same c n hsegs
     have hst0 := hst.cong hph hsc hstop hmx hsame
     obtain ⟨c', r, hh, hl, ho⟩ := stage_poll ok hst0
-    have hpoll := hh.pollT (by rw [hsame.input]; exact hlen)
+    have hpoll := hh.pollB (by omega)
     have hans0 : ans (prePoll c n none).env.tr = ans c.env.tr := by unfold ans; rw [hsame.rd, hsame.wr]
     have hem : c'.env.tr.endMode = c.env.tr.endMode ∧ ans c'.env.tr ≤ ans c.env.tr ∧ c'.env.segs = [] ∧
         ∀ s, s ∈ c.env.tr.events → s ∈ c'.env.tr.events :=
@@ -173,18 +172,14 @@ theorem run_from_stage {g : Cfg} (ok : g.OK) : ∀ (A : Nat) (c : Conn) (n fuel 
         exact hem
       · omega
   | succ A ih =>
-    intro c n fuel hst hsegs hA hf hlen
+    intro c n fuel hst hsegs hA hf
     obtain ⟨f, rfl⟩ : ∃ f, fuel = f + 1 := ⟨fuel - 1, by omega⟩
     obtain ⟨hsame, hph, hsc, hstop, hmx, hsg, hwk⟩ := prePoll_same c n hsegs
     have hst0 := hst.cong hph hsc hstop hmx hsame
     obtain ⟨c', r, hh, hl, ho⟩ := stage_poll ok hst0
-    have hpoll := hh.pollT (by rw [hsame.input]; exact hlen)
+    have hpoll := hh.pollB (by omega)
     have hans0 : ans (prePoll c n none).env.tr = ans c.env.tr := by unfold ans; rw [hsame.rd, hsame.wr]
     have hsg' : c'.env.segs = [] := hl.segs.trans hsg
-    have hlen' : 4 * c'.env.tr.input.length + 17 ≤ 100000 := by
-      have := hl.ts.inp
-      rw [hsame.input] at this
-      omega
     have hem : c'.env.tr.endMode = c.env.tr.endMode ∧ ans c'.env.tr ≤ ans c.env.tr ∧ c'.env.segs = [] ∧
         ∀ s, s ∈ c.env.tr.events → s ∈ c'.env.tr.events :=
       ⟨hl.ts.em.trans hsame.em, by have := hl.ts.ans_le; omega, hl.segs.trans hsg,
@@ -194,7 +189,7 @@ theorem run_from_stage {g : Cfg} (ok : g.OK) : ∀ (A : Nat) (c : Conn) (n fuel 
     | @fin O1 O2 hO hfin => exact ⟨c', hem, O1, O2, hO, Or.inl ⟨rfl, hfin⟩⟩
     | pend hs' hw ha =>
       simp only [hw, if_true]
-      obtain ⟨c2, ⟨h1, h1', h1'', h1e⟩, h2⟩ := ih c' (n + 1) f hs' hsg' (by omega) (by omega) hlen'
+      obtain ⟨c2, ⟨h1, h1', h1'', h1e⟩, h2⟩ := ih c' (n + 1) f hs' hsg' (by omega) (by omega)
       exact ⟨c2, ⟨h1.trans hem.1, by have := hem.2.1; omega, h1'', fun s hs => h1e s (hem.2.2.2 s hs)⟩, h2⟩
     | @park O1 O2 hs' hO hp =>
       rcases hl.ts.wk with hw | ⟨hw, ha⟩
@@ -205,7 +200,19 @@ theorem run_from_stage {g : Cfg} (ok : g.OK) : ∀ (A : Nat) (c : Conn) (n fuel 
         refine ⟨_, ?_, O1, O2, hO, Or.inr ⟨rfl, hp.cong rfl rfl rfl rfl ⟨rfl, rfl, rfl, rfl, rfl, rfl, [], by simp, Quiet.nil⟩⟩⟩
         exact hem
       · simp only [hw, if_true]
-        obtain ⟨c2, ⟨h1, h1', h1'', h1e⟩, h2⟩ := ih c' (n + 1) f hs' hsg' (by omega) (by omega) hlen'
+        obtain ⟨c2, ⟨h1, h1', h1'', h1e⟩, h2⟩ := ih c' (n + 1) f hs' hsg' (by omega) (by omega)
         exact ⟨c2, ⟨h1.trans hem.1, by have := hem.2.1; omega, h1'', fun s hs => h1e s (hem.2.2.2 s hs)⟩, h2⟩
+
+
+/-- `run_from_stage'` with the (superfluous) size hypothesis of the first version -/
+theorem run_from_stage {g : Cfg} (ok : g.OK) : ∀ (A : Nat) (c : Conn) (n fuel : Nat),
+    Stage g c → c.env.segs = [] → ans c.env.tr ≤ A → A + 1 ≤ fuel →
+    4 * c.env.tr.input.length + 17 ≤ 100000 →
+    ∃ c', (c'.env.tr.endMode = c.env.tr.endMode ∧ ans c'.env.tr ≤ ans c.env.tr ∧ c'.env.segs = [] ∧
+        ∀ s, s ∈ c.env.tr.events → s ∈ c'.env.tr.events) ∧
+      ∃ O1 O2, O1 ++ O2 = g.Ot ∧
+      ((runTask fuel c n none = (c', "RET") ∧ Fin g O1 O2 c') ∨
+       (runTask fuel c n none = (c', "STALL") ∧ Parked g O1 O2 c')) :=
+  fun A c n fuel hst hsegs hA hf _ => run_from_stage' ok A c n fuel hst hsegs hA hf
 
 end Fcgi.E2E
